@@ -8,9 +8,11 @@
 package main
 
 import (
+	"bytes"
 	"encoding/json"
 	"fmt"
 	"os"
+	"path/filepath"
 	"runtime"
 	"strconv"
 	"strings"
@@ -72,8 +74,15 @@ func buildCombos(c *vkit.Ctx) []Combo {
 			}
 		}
 	}
+	// one more load, with a healthy upstream only: a large on-disk backlog (planted before the generation that is stopped). The
+	// stop must not wait for the backlog to drain - its duration is bounded by the configured timeouts, not by the queue length.
+	for _, sp := range []int{2500} {
+		out = append(out, Combo{State: "healthy", Load: "disk-backlog", StopMs: sp})
+	}
 	return out
 }
+
+const backlogFiles = 60000
 
 func scenarioOf(c *vkit.Ctx, cb Combo, idx int) e2e.Scenario {
 	r := c.Rand("combo:"+cb.id(), 0)
@@ -137,10 +146,30 @@ func scenarioOf(c *vkit.Ctx, cb Combo, idx int) e2e.Scenario {
 		{Conns: conns, UpScript: [][]upstream.Step{script}, StopDelayMs: cb.StopMs},
 		{UpScript: [][]upstream.Step{nil}, WaitAcked: true},
 	}
+	if cb.Load == "disk-backlog" {
+		// generation 0 only produces a few chunk files (upstream refusing); the backlog is planted before generation 1, which
+		// runs against a healthy upstream and is stopped 2.5 s after its start, in the middle of draining
+		sc.QueueCap = 4 * backlogFiles
+		sc.ChunkBytes = 300
+		one := e2e.ConnSpec{ID: 1}
+		for q := 1; q <= 8; q++ {
+			one.Recs = append(one.Recs, e2e.Rec{Conn: 1, Seq: q, App: "appA", Sev: 6, Host: "h1", Kind: "plain", Pad: 60})
+		}
+		// fresh records shortly before the stop: their chunk sits in memory behind the whole backlog when the stop arrives
+		fresh := e2e.ConnSpec{ID: 2, StartMs: cb.StopMs - 300}
+		for q := 1; q <= 6; q++ {
+			fresh.Recs = append(fresh.Recs, e2e.Rec{Conn: 2, Seq: q, App: "appA", Sev: 6, Host: "h1", Kind: "plain", Pad: 60})
+		}
+		sc.Gens = []e2e.GenSpec{
+			{Conns: []e2e.ConnSpec{one}, UpScript: [][]upstream.Step{{{Kind: "refuse", DelayMs: 60000}}}},
+			{Conns: []e2e.ConnSpec{fresh}, UpScript: [][]upstream.Step{nil}, StopDelayMs: 300},
+		}
+	}
 	return sc
 }
 
 var hookOn atomic.Bool
+var plantedBacklog int
 
 func childMain(c *vkit.Ctx) {
 	// the second clause is re-run (at most three attempts) when the agent itself reported that one of its safety timeouts
@@ -155,6 +184,7 @@ func childMain(c *vkit.Ctx) {
 
 // runCombo runs one combination; true = set aside, run again.
 func runCombo(c *vkit.Ctx, attempt int) (again bool) {
+	plantedBacklog = 0
 	idx, _ := strconv.Atoi(c.Arg("idx"))
 	var cb Combo
 	if only := c.Arg("only"); only != "" {
@@ -165,9 +195,15 @@ func runCombo(c *vkit.Ctx, attempt int) (again bool) {
 	sc := scenarioOf(c, cb, idx)
 	sc.ProcessLevel = cb.Proc
 	runtime.GOMAXPROCS(sc.Procs)
+	slowFeeder := cb.Load == "disk-backlog"
 	vhook.Hook = func(point string) {
 		if point == "worker.session.beforeStore" && hookOn.Load() {
 			time.Sleep(40 * time.Millisecond)
+		}
+		// a disk that is slower than the upstream: the feeder, not the forwarder, limits the drain, so the in-memory window is
+		// never full - the situation in which a feeder that looks for the stop only when the window is full never sees it
+		if slowFeeder && point == "buffer.feeder.beforeOutput" {
+			time.Sleep(650 * time.Microsecond)
 		}
 	}
 	hookOn.Store(cb.HookDelay)
@@ -180,7 +216,28 @@ func runCombo(c *vkit.Ctx, attempt int) (again bool) {
 	limit := bound + 10*time.Second
 	var stuckDump string
 	clientPhase := ""
-	obs, err := e2e.Run(sc, c.WorkDir(), e2e.Hooks{Timeouts: &timeouts, Watchdog: limit, BeforeStop: func(gen int, a *e2e.Agent, ups []*upstream.Server) {
+	obs, err := e2e.Run(sc, c.WorkDir(), e2e.Hooks{Timeouts: &timeouts, Watchdog: limit, BeforeStart: func(gen int) {
+		if cb.Load != "disk-backlog" || gen != 1 {
+			return
+		}
+		files, _ := filepath.Glob(filepath.Join(c.WorkDir(), "sc-"+sc.ID, "q1", "*", "*.ff"))
+		if len(files) == 0 {
+			return
+		}
+		data, err := os.ReadFile(files[0])
+		if err != nil {
+			return
+		}
+		dir := filepath.Dir(files[0])
+		origID := filepath.Base(files[0]) // the chunk's id is also inside the message (option "chunk"): same length, replaced
+		for i := 0; i < backlogFiles; i++ {
+			id := fmt.Sprintf("%019d-%08d.ff", 1700000000000000000+int64(i), 0)
+			d := bytes.Replace(data, []byte(origID), []byte(id), 1)
+			if len(id) == len(origID) && os.WriteFile(filepath.Join(dir, id), d, 0o644) == nil {
+				plantedBacklog++
+			}
+		}
+	}, BeforeStop: func(gen int, a *e2e.Agent, ups []*upstream.Server) {
 		if gen != 0 || cb.Proc { // at process level the harness cannot look at the agent's goroutines
 			return
 		}
@@ -231,6 +288,52 @@ func runCombo(c *vkit.Ctx, attempt int) (again bool) {
 	}
 	g0 := obs.Gens[0]
 	ms := int(g0.StopDur / time.Millisecond)
+	if cb.Load == "disk-backlog" {
+		c.Event("disk_backlog_files_planted", plantedBacklog)
+		if len(obs.Gens) > 1 {
+			g0 = obs.Gens[1] // the generation whose stop is measured
+			ms = int(g0.StopDur / time.Millisecond)
+			c.Event("disk_backlog_stop_ms", ms)
+			left := 0
+			for range g0.DiskFiles {
+				left++
+			}
+			c.Event("disk_backlog_files_left_after_stop", left)
+			if os.Getenv("VERIF_DEBUG") != "" {
+				fmt.Fprintf(os.Stderr, "DEBUG gen1 upstream events: %v\nDEBUG agent log: %v\nDEBUG chunks seen gen1: %d\n", g0.UpEvents, g0.AgentLog, len(obs.Chunks))
+			}
+		}
+		c.Nontrivial(cb.id())
+		c.Sample(map[string]any{"combo": cb, "stop_ms": ms, "files_planted": plantedBacklog})
+		// second clause for the fresh records of generation 1: acknowledged or in a queue file after that stop
+		if len(obs.Gens) > 1 && g0.ClientEOF[2] {
+			have := map[string]bool{}
+			for _, d := range obs.Up {
+				if d.Acked {
+					have[d.Stamp] = true
+				}
+			}
+			for _, d := range g0.Disk {
+				have[d.Stamp] = true
+			}
+			var missing []string
+			for _, r := range sc.Gens[1].Conns[0].Recs {
+				if !have[r.Stamp()] {
+					missing = append(missing, r.Stamp())
+				}
+			}
+			c.Event("records_checked", len(sc.Gens[1].Conns[0].Recs))
+			if len(missing) > 0 {
+				if exp := e2e.SafetyExpired(obs); len(exp) > 0 && attempt < 3 {
+					c.Sample(map[string]any{"combo": cb, "set_aside": exp})
+					return true
+				}
+				c.Violation("only-in-memory:healthy/disk-backlog", fmt.Sprintf("%s: the stop took %d ms with a backlog of %d chunk files and a healthy upstream; afterwards %d of %d records received shortly before the stop are neither acknowledged nor in a queue file, e.g. %v",
+					cb.id(), ms, plantedBacklog, len(missing), len(sc.Gens[1].Conns[0].Recs), missing), map[string]any{"combo": cb, "stop_ms": ms})
+			}
+		}
+		return false
+	}
 	if cb.Proc {
 		c.Event("process_level_stops", 1)
 		for gi, g := range obs.Gens {
